@@ -1907,5 +1907,52 @@ seed("c04-lmtp-panic-loses-done", "C04", "R-result-on-every-exit", "conn.go",
 """					c.server.ErrorLog.Printf("panic serving %v: %v\\n%s", c.conn.RemoteAddr(), err, stack)
 					done <- false""", """					c.server.ErrorLog.Printf("panic serving %v: %v\\n%s", c.conn.RemoteAddr(), err, stack)""", "after a backend panic the command loop waits for ever")
 
+# ---- batches 46/47 (2026-09-28) ----
+seed("c03-bdat-limit-check-before-envelope-check", "C03", "R-refusal-no-reset", "conn.go",
+"""	if !c.fromReceived || len(c.recipients) == 0 {
+		// RFC 3030: the chunk of a refused BDAT must be discarded, it
+		// must not be interpreted as commands.
+		_, discardErr := io.Copy(ioutil.Discard, io.LimitReader(c.text.R, int64(size)))
+		c.writeResponse(502, EnhancedCode{5, 5, 1}, "Missing RCPT TO command.")
+		if discardErr != nil {
+			// The end of the chunk was not reached (timeout, connection
+			// error): what follows in the stream is not a command.
+			c.Close()
+		}
+		return
+	}
+
+	last := false""", """	last := false""", "an out-of-order BDAT over the size limit reaches reset()")
+seed("c14-hexpoint-regexp-max-five", "C14", "R-enc-dec-width", "conn.go",
+"""`\\\\x[{][0-9A-F]+[}]|[[:cntrl:] \\\\+=]`""", """`\\\\x[{][0-9A-F]{1,5}[}]|[[:cntrl:] \\\\+=]`""", "six-digit escapes (plane 16) are not matched: the backslash is refused as a disallowed character")
+seed("c06-data-during-bdat-falls-through", "C06", "R-data-not-during-bdat", "conn.go",
+"""		c.writeResponse(502, EnhancedCode{5, 5, 1}, "DATA not allowed during message transfer")
+		return""", """		c.writeResponse(502, EnhancedCode{5, 5, 1}, "DATA not allowed during message transfer")""", "DATA's fresh budget adds to the chunks already taken")
+seed("c07-bdat-size-base-detection", "C07", "R-bdat-size-decimal", "conn.go",
+"""	size, err := strconv.ParseUint(args[0], 10, 32)
+	if err != nil {
+		c.writeResponse(501, EnhancedCode{5, 5, 4}, "Malformed size argument")""", """	size, err := strconv.ParseUint(args[0], 0, 32)
+	if err != nil {
+		c.writeResponse(501, EnhancedCode{5, 5, 4}, "Malformed size argument")""", "BDAT 010 LAST with 8 octets is taken for a complete chunk")
+seed("c20-status-channel-capacity-distinct", "C20", "R-status-shape", "conn.go",
+"""		status.statusMap[rcpt] = make(chan error, count)""", """		status.statusMap[rcpt] = make(chan error, len(rcptCounts)+0*count)""", "a recipient repeated more often than there are distinct ones blocks the command loop")
+for pid in ("C05", "C09"):
+    seed(pid.lower()+"-refusal-through-protocolerror", pid, "R-protocol-error-sites", "conn.go",
+"""		c.writeResponse(501, EnhancedCode{5, 5, 4}, "Missing chunk size argument")""", """		c.protocolError(501, EnhancedCode{5, 5, 4}, "Missing chunk size argument")""", "a refused BDAT uses up the connection's error budget")
+seed("c02-close-returns-before-closed", "C02", "R-no-dispatch-after-close", "conn.go",
+"""	if c.session != nil {
+		c.session.Logout()
+		c.session = nil
+	}
+
+	c.closed = true""", """	if c.session != nil {
+		if err := c.session.Logout(); err != nil {
+			return err
+		}
+		c.session = nil
+	}
+
+	c.closed = true""", "a failing Logout leaves the connection open and the loop running")
+
 json.dump(S, open(os.path.join(os.path.dirname(os.path.abspath(__file__)), "bank.json"), "w"), indent=1)
 print(len(S), "seeds")
